@@ -150,6 +150,22 @@ PROPS = {
             "the cleared-timer set across calls: unit W proves that polling a timer future takes exactly its own id out of the set; an id cleared after its future is gone stays (F8, cross-call history) and Time::clear itself is an async block",
         ],
     },
+    "C04": {
+        "kani": [],
+        "verus": ["M", "Q"],
+        "trusted_base": ["Verus 0.2026.09.13 + Z3 (unit M: lifted task bodies of Command::{then, map_effect, map_event, event, notify_shell}; unit Q: Command::{new, done, spawn, all, and}, CommandSink::start_send)"],
+        "assumptions": [
+            "rule X17 (synchronous projection): each combinator is `Command::new(|ctx| async move { .. })`; the closure's block is lifted into a function of what it captures and `.await` is erased - the awaited future has run to its end when the next statement starts (drops: rustc's future state machine and when the pieces are polled; keeps every statement and argument)",
+            "`host` (`self.map(Ok).forward(CommandSink::new(effects, events))`, a futures adapter chain) is an ASSUMED call that logs which stream was forwarded into which channels and that it ended; `StreamExt::map(f)` is assumed to apply f to every output once, in order; CommandSink::start_send (one output into the matching channel, once) is proved in unit Q",
+            "ctx.send_event / ctx.notify_shell as proved in unit Q / Kani unit A",
+            "the user's mapping function is any function (call_requires/call_ensures)",
+        ],
+        "not_decided": [
+            "the algebraic laws (done is a unit for then/and, all of one command equals it, identity mapping, order-insensitivity) and observable equality with a reference semantics: trace equalities over programs x schedules, not per-call contracts",
+            "the builder chains of command/builder.rs (then_request, then_stream, map, then_send): async closures over futures adapters, not extracted",
+            "and/all run their parts CONCURRENTLY and finish when all have: decided only as 'each part is hosted by its own task' (unit Q, reported under C01/C06 too)",
+        ],
+    },
     "C14": {
         "kani": [],
         "verus": ["H"],
